@@ -160,31 +160,19 @@ impl NodeIdentity {
         // Deterministically derive key material via HKDF-SHA3
         use saorsa_pqc::{HkdfSha3_256, api::traits::Kdf};
 
-        // ML-DSA-65 public/secret key sizes (bytes)
-        const ML_DSA_PUB_LEN: usize = 1952;
-        const ML_DSA_SEC_LEN: usize = 4032;
-
-        let mut derived = vec![0u8; ML_DSA_PUB_LEN + ML_DSA_SEC_LEN];
-        HkdfSha3_256::derive(seed, None, b"saorsa-node-identity-seed", &mut derived).map_err(
+        // The HKDF output is the seed of a real ML-DSA key generation. Cutting "public"
+        // and "secret" bytes straight out of it gives two unrelated byte strings, and
+        // signatures made with the one never verify under the other.
+        let mut key_seed = [0u8; 32];
+        HkdfSha3_256::derive(seed, None, b"saorsa-node-identity-seed", &mut key_seed).map_err(
             |_| P2PError::Identity(IdentityError::InvalidFormat("HKDF expand failed".into())),
         )?;
 
-        let pub_bytes = &derived[..ML_DSA_PUB_LEN];
-        let sec_bytes = &derived[ML_DSA_PUB_LEN..];
-
-        // Construct keys from bytes; these constructors accept byte slices in our integration
-        let public_key =
-            crate::quantum_crypto::ant_quic_integration::MlDsaPublicKey::from_bytes(pub_bytes)
+        let (public_key, secret_key) =
+            crate::quantum_crypto::ant_quic_integration::ml_dsa_keypair_from_seed(&key_seed)
                 .map_err(|e| {
                     P2PError::Identity(IdentityError::InvalidFormat(
-                        format!("Invalid ML-DSA public key bytes: {e}").into(),
-                    ))
-                })?;
-        let secret_key =
-            crate::quantum_crypto::ant_quic_integration::MlDsaSecretKey::from_bytes(sec_bytes)
-                .map_err(|e| {
-                    P2PError::Identity(IdentityError::InvalidFormat(
-                        format!("Invalid ML-DSA secret key bytes: {e}").into(),
+                        format!("ML-DSA key generation from seed failed: {e}").into(),
                     ))
                 })?;
 
